@@ -66,6 +66,8 @@ pub struct WorldCfg {
     pub data_before_template: u32,
     pub clock_jump: u32,
     pub heal: bool,
+    /// size of the collector's receive buffer: a longer datagram is cut there (recv_from)
+    pub recv_buf: usize,
 }
 
 impl WorldCfg {
@@ -705,7 +707,14 @@ impl<'a> World<'a> {
             } else {
                 self.stats.hit("coalesce");
                 let at = self.now + MS;
-                self.push(at, Act::Arrive { p, buf: held, parts, cut: None, faults: vec!["coalesce".into()] });
+                let mut faults = vec!["coalesce".to_string()];
+                let mut cut = None;
+                if held.len() > cfg.recv_buf {
+                    cut = Some(cfg.recv_buf);
+                    faults.push("short_recv_buffer".to_string());
+                    self.stats.hit("short_recv_buffer");
+                }
+                self.push(at, Act::Arrive { p, buf: held, parts, cut, faults });
             }
             return;
         }
@@ -727,6 +736,11 @@ impl<'a> World<'a> {
             cut = Some(self.rng.urange(1, buf.len() - 1));
             faults.push("truncate".to_string());
             self.stats.hit("truncate");
+        }
+        if cut.is_none() && buf.len() > cfg.recv_buf {
+            cut = Some(cfg.recv_buf);
+            faults.push("short_recv_buffer".to_string());
+            self.stats.hit("short_recv_buffer");
         }
         let mut lat = MS + self.rng.below(MS);
         if self.rng.permille(cfg.reorder) {
